@@ -493,11 +493,11 @@ func (cdfFile *CDRFile) Decoding(fileName string) {
 	tail := uint32(n)
 
 	if cdfFile.Hdr.HighReleaseIdentifier == 7 {
-		cdfFile.Hdr.HighReleaseIdentifierExtension = data[n]
+		cdfFile.Hdr.HighReleaseIdentifierExtension = data[tail]
 		tail++
 	}
 	if cdfFile.Hdr.LowReleaseIdentifier == 7 {
-		cdfFile.Hdr.LowReleaseIdentifierExtension = data[n+1]
+		cdfFile.Hdr.LowReleaseIdentifierExtension = data[tail]
 		tail++
 	}
 
